@@ -227,3 +227,23 @@ def has_re_compile(e: Any) -> bool:
     if e and e[0] == 11 and e[1] == [2, [1, 're'], 'compile']:
         return True
     return any(has_re_compile(x) for x in e)
+
+
+def re_compile_calls(tier: str) -> List[Any]:
+    """Calls to re.compile displayed on their own (the regex colouriser): argument shapes x patterns."""
+    RC = [2, [1, 're'], 'compile']
+    I = [2, [1, 're'], 'I']
+    pats = ['a+b', '', '(', 'a\nb', "it's", '[a-z]+\\d{2,3}', '(?P<n>x)|y', '\\bfoo\\b', 'caf\u00e9', 'a{1,1}(?i)', '[', 'x' * 30]
+    if tier == 'thorough':
+        pats += ['^$', '(?:ab)*?', '[^a]', '\\.', 'a|b|c', '(a)(b)\\2', '\\x41', '"', ' ', '(?=a)(?!b)(?<=c)(?<!d)', '\\Z', '.']
+    out: List[Any] = []
+    for p_ in pats:
+        P = S(p_)
+        out += [[11, RC, [P], []], [11, RC, [P, I], []], [11, RC, [P], [['flags', [4, 9, I, [2, [1, 're'], 'M']]]]],
+                [11, RC, [], [['pattern', P]]], [11, RC, [], [['flags', K('0')], ['pattern', P]]]]
+    P = S('a+b')
+    out += [[11, RC, [P], [[None, N('kw')]]], [11, RC, [P], [['flags', I], [None, N('kw')]]], [11, RC, [[12, N('a')]], []],
+            [11, RC, [P, K('1'), K('2')], []], [11, RC, [], [['foo', P]]], [11, RC, [P], [['pattern', P]]], [11, RC, [], []],
+            [11, RC, [N('x')], []], [11, RC, [K('1')], []], [11, RC, [[0, 2, list(b'\\d+')]], []], [11, RC, [[0, 2, list(b'a\nb')]], [['flags', I]]],
+            [11, RC, [P, I], [['flags', I]]], [11, RC, [[0, 3, None]], []], [11, RC, [P, [4, 1, N('a'), N('b')]], []]]
+    return out
